@@ -58,16 +58,60 @@ META = {
             "(memv k '(...)) allocates the quoted list, the native meaning does not), case with a compound key (atom-key), delay / "
             "delay-force (the prelude represents promises as lists and force as a library procedure; Spec.Eval has native promise "
             "cells: a change of representation). T01.3 (compiler correctness: compile+run of Vm/Compile.lean + Vm/Machine.lean "
-            "agrees with Spec.Eval): STAGE 1 ONLY and PARTIAL (compile_correct_stage1_partial, Lemmas/CompileCorrect*.lean): for the "
-            "closure-free fragment (constants, quote of atoms, global reference, set! of a global, if, application with a "
-            "non-keyword head; (define x e) separately) and the SUCCESS case of Spec.Eval only, running the compiler model's code on "
-            "Vm.step over an abstract heap leaves the live stack, bp, ep unchanged, advances ip by the code length, leaves a "
-            "representation of the value in acc and a heap representing the new state — under the explicit assumption structure "
-            "RepLaws (global slots form a store; writing a global preserves code/representations; truth of #f; void; and `call`: a "
-            "represented callee on which the specification's apply returns is a generic builtin whose result represents the same "
-            "value — i.e. the behaviour of builtins is assumed, not proved); the laws are shown satisfiable on the concrete heap "
-            "model and every hypothesis is discharged for (not #t). Open: error case, quote of pairs/vectors, closures/lambda/"
-            "lexical variables/frames (stage 2), quasiquote (stage 3), GC interleaving. The agreement of the REAL parse+expand+compile+run pipeline with Spec.Eval — "
+            "agrees with Spec.Eval), ALL PARTIAL, on the model machine Vm.step over an abstract heap with explicit assumed law "
+            "structures. STAGE 1 success (compile_correct_stage1_partial, Lemmas/CompileCorrect*.lean): closure-free fragment "
+            "(constants, quote of atoms, global reference, set! of a global, if, application with a non-keyword head; (define x e) "
+            "separately): the run leaves live stack, bp, ep unchanged, advances ip by the code length, leaves a representation of the "
+            "value in acc and a heap representing the new state — under RepLaws (global slots form a store; writing a global preserves "
+            "code/representations; truth of #f; void; and `call`: the behaviour of builtins is ASSUMED); laws satisfiable on the concrete "
+            "heap model, every hypothesis discharged for (not #t). STAGE 1 ERROR CASE (compile_correct_stage1_error_partial, "
+            "Lemmas/CompileCorrect2Err*.lean): when Spec.Eval ends with a definite error of class c (unbound variable, not-a-procedure, "
+            "builtin error classes at the granularity unbound/not-procedure/user/wrong), the machine runs without failing to a state "
+            "whose next run_one returns an error of the same class, with the start's lambda/bp/ep, the start's live stack below the "
+            "pushed operands (the error path does not unwind), and a heap representing the specification's state AT THE FAILURE "
+            "(exactly the completed effects) — under the additional assumed law ErrLaws.call_err (a failing apply on a represented "
+            "callee is either a non-procedure for the machine's dispatch or a generic builtin failing with the same class). Excluded "
+            "by explicit hypotheses: class `syntax` (inexact/rational constants are outside Spec.Eval's grammar, the machine loads them) "
+            "and set! of an unbound global (Spec.Eval fails, marwood defines: DESIGN 7.5; set_unbound_spec_fails). ErrLaws derived "
+            "from elementary laws for store-free values, dispatch part proved on the concrete heap; every hypothesis discharged for "
+            "(if (set! g #t) (g) 1) (demo_err_runs: g := #t is done, then CALL fails InvalidProcedure). QUOTE OF COMPOUND DATA "
+            "(quote_compound_partial, Lemmas/CompileCorrect2Quote.lean): over the generic heap with the minimal law extension QuoteLaws "
+            "(closure of the representation under heap pairs/vectors, monotone in the store; one opaque observation vecElems) — cheaper "
+            "than concreteOps because Machine.lean keeps vector payloads opaque; the compile-time constant (DatumAt) represents every "
+            "copy quoteVal allocates (many-to-one; sound while constants are not mutated — Spec.Eval copies per evaluation, marwood "
+            "shares: they differ on (set-car! '(1) 2), an R7RS error); laws hold for the closure of any store-independent base "
+            "(closedVR_quoteLaws); not yet merged into the stage fragments (the fragments' quote is still atoms only). STAGE 2 "
+            "(compile_correct_stage2_partial, closure_call_stage2_partial, compile_correct_stage2_toplevel; Lemmas/CompileCorrect2*.lean), "
+            "success case: fragment F2 = stage-1 forms in ANY binding context + (lambda (x ...) body ...) with fixed arity, distinct "
+            "parameters, no internal definitions + application of closures and primitives in tail and non-tail position + references and "
+            "set! of lambda parameters at any nesting depth. Proved by induction on the fuel of the SPECIFICATION: CLOSURE builds the "
+            "closure environment, CALL pushes ep/ip, ENTER builds the activation environment, the body runs, RET restores; TCALL "
+            "(both branches of run.rs: equal and different argument counts) replaces the frame and the run ends in the caller as the "
+            "RET of the current activation would have left it (Out2 = Run2 | Ret2). Closures are (lambda, environment) pairs whose "
+            "captured slots are one-level LexicalEnvPtr's to the location standing for the captured variable; a partial bijection "
+            "(World) relates machine variable locations and specification store locations, so set! through aliases is covered. "
+            "ASSUMED (Laws2): observation of values, global store, envPut on a value slot, CLOSURE (closure_ok) and ENTER "
+            "(activation_ok) as build_closure_environment/build_lexical_environment, behaviour of primitives (call); all of Laws2 is "
+            "PROVED for the small bump-allocating heap of CompileCorrect2Toy.lean (Toy.laws; not yet for concreteOps, whose allocator "
+            "reuses addresses), every hypothesis discharged for ((lambda (x) (if x 1 2)) #t) (demo_closure_runs) and for the tail call "
+            "((lambda (f) (f #t)) (lambda (x) (if x 1 2))) (demo_tailcall_runs). The fragment predicate carries well-scopedness as "
+            "computed facts about the compiler model (lambdaParts' environment map = formals ++ captured-from-enclosing-map; a name has "
+            "a map entry iff it is lexically bound): adequacy of the free-variable analysis is a per-program checked hypothesis here "
+            "(proved in general on the scope-skeleton model in C02); set! of a GLOBAL is restricted to a set of names (RepData2.setG) "
+            "that the invariant keeps bound, because marwood's set! of an unbound global defines it where Spec.Eval fails. STAGE 2 "
+            "ERROR CASE (compile_correct_stage2_error_partial, Lemmas/CompileCorrect2Fail*.lean): when Spec.Eval ends with an error "
+            "of class != syntax at any depth of closure calls and tail calls (unbound variable, non-procedure in operator position, "
+            "closure called with the wrong number of arguments -> ENTER fails InvalidNumArgs, failing primitive), the machine runs "
+            "without failing to a state whose next run_one returns an error of the same class; the heap there represents the "
+            "specification's state at the failure and the start's live stack (in tail position: the caller's) is intact below the "
+            "frames of the calls in progress — nothing is unwound, which is the situation C07's reset starts from; additional assumed "
+            "law ErrLaws2 (failing primitive = failing generic builtin of the same class; non-procedure values are `other` for the "
+            "dispatch), proved on the Toy heap (Toy.errLaws), every hypothesis discharged for ((lambda (x) (x)) #t) "
+            "(demo_closure_fails: TCALL fails InvalidProcedure inside the activation). Excluded from stage 2: rest parameters "
+            "(VARARG), internal definitions, duplicate parameters ((lambda (x x) x) 1 2): Spec.Eval 2, compiler model and real VM 1 — "
+            "an R7RS error; duplicate_parameters_differ), derived forms via macros (T01.2), quasiquote, call/cc, "
+            "eval/apply/map/for-each (re-dispatching builtins), GC interleaving. Open: rest parameters/internal "
+            "definitions, quasiquote (stage 3), Laws2 on the concrete heap, GC interleaving. The agreement of the REAL parse+expand+compile+run pipeline with Spec.Eval — "
             "i.e. the first sentence of the property — is carried ONLY by the differential correspondence (generated sessions, "
             "see coverage.streams: feature histogram, named combinations, failure classes), and the fresh-VM / independence "
             "clause on the implementation side by the two implementation-vs-implementation oracles; the theorems are about the "
@@ -145,6 +189,31 @@ THEOREMS = [
     "Marwood.Lemmas.CompileCorrect.compileExpr_correct_atoms",
     "Marwood.Lemmas.CompileCorrect.concrete_atomLaws",
     "Marwood.Lemmas.CompileCorrect.demo_not_runs",
+    "Marwood.Proofs.C01.compile_correct_stage1_error_partial",
+    "Marwood.Proofs.C01.set_unbound_spec_fails",
+    "Marwood.Lemmas.CompileCorrect.compileExpr_correct_err",
+    "Marwood.Lemmas.CompileCorrect.atomErrLaws_errLaws",
+    "Marwood.Lemmas.CompileCorrect.concrete_atomErrLaws",
+    "Marwood.Lemmas.CompileCorrect.demo_err_runs",
+    "Marwood.Proofs.C01.quote_compound_partial",
+    "Marwood.Lemmas.CompileCorrect.quote_rep",
+    "Marwood.Lemmas.CompileCorrect.closedVR_quoteLaws",
+    "Marwood.Proofs.C01.compile_correct_stage2_partial",
+    "Marwood.Proofs.C01.closure_call_stage2_partial",
+    "Marwood.Proofs.C01.compile_correct_stage2_toplevel",
+    "Marwood.Lemmas.CompileCorrect2.compileExpr_correct2",
+    "Marwood.Lemmas.CompileCorrect2.stepTCall_closure",
+    "Marwood.Lemmas.CompileCorrect2.monoOK",
+    "Marwood.Lemmas.CompileCorrect2.Toy.laws",
+    "Marwood.Lemmas.CompileCorrect2.Toy.demo_closure_runs",
+    "Marwood.Lemmas.CompileCorrect2.Toy.demo_tailcall_runs",
+    "Marwood.Proofs.C01.compile_correct_stage2_error_partial",
+    "Marwood.Lemmas.CompileCorrect2.compileExpr_correct2_err",
+    "Marwood.Lemmas.CompileCorrect2.closureCall_correct2_err",
+    "Marwood.Lemmas.CompileCorrect2.Toy.errLaws",
+    "Marwood.Lemmas.CompileCorrect2.Toy.demo_closure_fails",
+    "Marwood.Proofs.C01.duplicate_parameters_differ",
+    "Marwood.Proofs.C01.quoted_constant_mutation_spec",
     "Marwood.Spec.Eval.Prelude.every_macro_is_readable",
     "Marwood.Spec.Eval.Prelude.when_expansion",
     "Marwood.Spec.Eval.Prelude.unless_expansion",
